@@ -46,7 +46,9 @@ RawScript(sh, d) ==
   [nodes |-> sh.nodes, pool |-> sh.pool, use_delay_ms |-> d,
    steps |-> Req(2) \o <<[op |-> "use", ks |-> "Ks1", raw |-> 1]>> \o Req(8) \o Sleep(100) \o Req(8) \o <<[op |-> "use", ks |-> "ks2"]>> \o Req(8)
              \o <<[op |-> "use", ks |-> "KS3", raw |-> 1]>> \o <<[op |-> "kill", node |-> 0, which |-> "all", rst |-> 1]>> \o Req(6) \o Sleep(300) \o Req(6)]
-VoidScript(sh, k) == [RejectScript(sh, 0) EXCEPT !.use_reject = 0] @@ [use_void |-> k]
+VoidScript(sh, k) ==
+  [nodes |-> sh.nodes, pool |-> sh.pool, use_delay_ms |-> 0, use_void |-> k,
+   steps |-> Req(2) \o <<[op |-> "use", ks |-> "ks1"]>> \o Req(12) \o Sleep(100) \o Req(12) \o <<[op |-> "use", ks |-> "ks2"]>> \o Req(8)]
 ZeroTokenScript(sh, d, x) == Script(sh, d, x, << >>) @@ [zero_token |-> Len(sh.nodes) - 1]
 Init == \/ \E sh \in Shapes : \E d \in {0, 30} : c = [t |-> "script", s |-> RawScript(sh, d)]
         \/ \E sh \in Shapes : \E k \in {1, 2} : c = [t |-> "script", s |-> VoidScript(sh, k)]
